@@ -12,6 +12,7 @@ import copy
 import io
 import json
 import pickle
+import types
 
 from rt import impl, ref_pointer as rp
 from rt.foundry import ForeignFailed, foreign
@@ -180,6 +181,8 @@ def check(ctx, doc, ops, directed):
     text = json.dumps(ops)
     for name, fn in (("text", lambda: jsonpath.JSONPatch(text)), ("file", lambda: jsonpath.JSONPatch(io.StringIO(text))), ("builder", lambda: build_chain(copy.deepcopy(ops), jsonpath)), ("builder-with-pointer-objects", lambda: build_chain(copy.deepcopy(ops), jsonpath, pointer_objects=True)),
                      ("asdicts", lambda: jsonpath.JSONPatch(copy.deepcopy(f1.value.asdicts()))), ("deepcopy", lambda: copy.deepcopy(f1.value)), ("pickle", lambda: pickle.loads(pickle.dumps(f1.value))),
+                     ("tuple", lambda: jsonpath.JSONPatch(tuple(copy.deepcopy(ops)))), ("generator", lambda: jsonpath.JSONPatch(o_ for o_ in copy.deepcopy(ops))), ("iter", lambda: jsonpath.JSONPatch(iter(copy.deepcopy(ops)))),
+                     ("map", lambda: jsonpath.JSONPatch(map(dict, copy.deepcopy(ops)))), ("mappingproxy-elements", lambda: jsonpath.JSONPatch([types.MappingProxyType(o_) for o_ in copy.deepcopy(ops)])),
                      ("another-interpreter", lambda: foreign("patch", copy.deepcopy(ops)))):
         if name == "another-interpreter" and ctx.rng.random() > 0.1:
             continue
